@@ -137,6 +137,10 @@ func pickMask(g *core.Stream) string {
 	case 2:
 		return "*!*@10.0.0.1"
 	case 3:
+		if g.Intn(2) == 0 {
+			// the host of an existing session ({sida} = acting session, {sidb} = the other one, in hex)
+			return g.Pick([]string{"*!*@robust/0x{sidb}", "*!*@robust/0x{sida}", "*!*@robust/0x{sidb}*"})
+		}
 		return "*!*@robust/0x" + fmt.Sprintf("%x", g.Range(1, 40))
 	case 4:
 		return "*!u@*"
@@ -460,6 +464,35 @@ func (e1Engine) Generate(seed uint64, prop, tier string) (json.RawMessage, error
 		add(e1Step{K: "line", S: a, Data: "MODE " + c + " +i"})
 		add(e1Step{K: "line", S: b, Data: "JOIN " + c})
 	}
+	// snippet: a ban names a session's host (robust/0x<id>): the server also bans that session's network
+	// address, which only shows when another session from the same address comes along later
+	sessionBan := func() {
+		if nsess < 2 {
+			return
+		}
+		a, b := g.Intn(nsess), g.Intn(nsess)
+		if a == b || a == svc || b == svc {
+			return
+		}
+		c := g.Pick(e1Chans)
+		addr := g.Pick(e1Addrs)
+		add(e1Step{K: "line", S: a, Data: "JOIN " + c})
+		add(e1Step{K: "line", S: b, Data: "NAMES", Addr: addr})
+		add(e1Step{K: "line", S: a, Data: "MODE " + c + " +b *!*@robust/0x{sidb}"})
+		if g.Chance(1, 2) {
+			add(e1Step{K: "line", S: b, Data: "QUIT :bye"})
+		}
+		for k := 0; k < g.Range(0, 3); k++ {
+			add(e1Step{K: "noop"})
+		}
+		add(e1Step{K: "create"})
+		ls := nsess
+		nsess++
+		add(e1Step{K: "line", S: ls, Data: "NICK " + g.Pick(e1Nicks), Addr: addr})
+		add(e1Step{K: "line", S: ls, Data: "USER again 0 * :Again", Addr: addr})
+		add(e1Step{K: "line", S: ls, Data: "JOIN " + c, Addr: addr})
+		add(e1Step{K: "line", S: ls, Data: "PRIVMSG " + c + " :am I banned?", Addr: addr})
+	}
 	// snippet: several members on one channel, a membership-changing event, then channel and private traffic
 	chatter := func() {
 		if nsess < 3 {
@@ -507,6 +540,8 @@ func (e1Engine) Generate(seed uint64, prop, tier string) (json.RawMessage, error
 		switch {
 		case r < 8:
 			staleInvite()
+		case r >= 555 && r < 563:
+			sessionBan()
 		case r >= 500 && r < 540:
 			chatter()
 		case r >= 540 && r < 555:
